@@ -415,6 +415,11 @@ func keyExchange(klen int, ida, idb []byte, pri *PrivateKey, pub *PublicKey, rpr
 		err = errors.New("Ra not on curve")
 		return
 	}
+	// IsOnCurve reduces its arguments mod p: coordinates must be field elements in [0, p-1]
+	if p := curve.Params().P; rpub.X.Cmp(p) >= 0 || rpub.Y.Cmp(p) >= 0 {
+		err = errors.New("Ra coordinates are not field elements")
+		return
+	}
 	x1hat := keXHat(rpub.X)
 	ramx1, ramy1 := curve.ScalarMult(rpub.X, rpub.Y, x1hat.Bytes())
 	vxt, vyt := curve.Add(pub.X, pub.Y, ramx1, ramy1)
